@@ -132,6 +132,11 @@ def gen_cases(ctx):
         add(op, M64, *rstate(r))
         for _ in range((40 if op == "discard" else 30) * mul):
             add(op, r.getrandbits(r.choice([64, 64, 64, 33, 17])), *rstate(r))
+    # discard / discard_subsequence in both orders (C13_discard_commute; C++ only)
+    for _ in range(24 * mul):
+        add("commute", r.getrandbits(r.choice([64, 64, 33, 7])), r.getrandbits(r.choice([64, 64, 20, 3])), *rstate(r))
+    add("commute", M64, M64, *rstate(r))
+    add("commute", 0, 0, *rstate(r))
     # sequential comparison (C++ only; a few also through the model)
     top = 20 if big else 16
     for i in range(top // 2 + 1):
@@ -348,6 +353,14 @@ def run(ctx):
             if v[:6] != v[6:]:
                 viol("skip-ahead", "discard(%d) differs from %d sequential draws" % (a[0], a[0]),
                      {"state": a[1:], "n": a[0], "discard_state": v[:6], "sequential_state": v[6:]})
+        elif op == "commute":
+            if v[:6] != v[6:]:
+                viol("skip-ahead", "discard(%d) and discard_subsequence(%d) do not commute" % (a[0], a[1]),
+                     {"state": a[2:], "n": a[0], "k": a[1], "subseq_then_discard": v[:6], "discard_then_subseq": v[6:]})
+            elif ref is not None and v[:6] != ref.advance(a[2:], a[0] + (a[1] << 67)):
+                viol("skip-ahead", "discard(%d) after discard_subsequence(%d) differs from n + k*2^67 sequential draws" % (a[0], a[1]),
+                     {"state": a[2:], "n": a[0], "k": a[1], "implementation_state": v[:6],
+                      "sequential_state": ref.advance(a[2:], a[0] + (a[1] << 67))})
         elif op in ("discard", "subseq") and ref is not None:
             n = a[0] if op == "discard" else a[0] << 67
             exp = ref.advance(a[1:], n)
@@ -412,7 +425,7 @@ def run(ctx):
     if model_ok:
         mexe = ctx.ocaml_extract(os.path.join(HERE, "extract", "Extract.v"), os.path.join(HERE, "extract", "driver.ml"),
                                  "model", "xorwow_model")
-        idx = [i for i, (op, a) in enumerate(cases) if op != "seqdisc"]
+        idx = [i for i, (op, a) in enumerate(cases) if op not in ("seqdisc", "commute")]
         # sequential cases through the model as well: n model draws vs the implementation's n draws
         seq_idx = [i for i, (op, a) in enumerate(cases) if op == "seqdisc" and 0 < a[0] <= 65536][:60]
         mlines = ["%s %s" % (cases[i][0], " ".join("%x" % x for x in cases[i][1])) for i in idx]
@@ -450,6 +463,8 @@ def run(ctx):
     for (op, a), v in zip(cases, impl):
         if op == "seqdisc":
             ctx.case((op, a), nontrivial=a[0] > 0)
+        elif op == "commute":
+            ctx.case((op, a), nontrivial=a[0] > 0 and a[1] > 0)
 
     # 6. verdicts ------------------------------------------------------------
     if tie_err is not None and not found_input:
